@@ -1108,6 +1108,10 @@ var detPrograms = []string{
 	"(let ((g (lambda (i) (dotimes (i (vtr 1 i) (vtr 2 i)) (vtr 3 i))))) (let ((r nil)) (dotimes (i 3 (reverse r)) (setq r (cons (funcall g i) r)))))",
 	"(let ((h (lambda (x) (do ((x (vtr 1 x) (1- x)) (s 0 (+ s x))) ((< x 1) (vtr 2 s)))))) (let ((r nil)) (dolist (x (list 1 3) (reverse r)) (setq r (cons (funcall h x) r)))))",
 	"(list 'nil 't '5 '3/4 '2.5f0 '\"s\" '#\\a '#(1 2) '(a . b))",
+	// a &rest list kept after the call, the function called by a mapping function over several lists
+	"(list (mapcar (lambda (&rest r) r) (list 1 2 3) (list 4 5 6)) (mapcar (lambda (a &rest r) (cons (vtr 1 a) r)) (list 1 2) (list 3 4) (list 5 6)))",
+	"(let ((acc nil)) (mapc (lambda (&rest r) (setq acc (cons r acc))) (list 1 2) (list 3 4)) (defun uf1 (&rest r) r) (list (reverse acc) (mapcar #'uf1 (list 7 8) (list 9 10)) (mapcar 'uf1 (list 1 2))))",
+	"(let ((fs (mapcar (lambda (&rest r) (lambda () r)) (list 1 2) (list 3 4)))) (list (funcall (car fs)) (funcall (car (cdr fs)))))",
 	// a self-evaluating object as the only or the last form of a function body
 	"(defun uf1 () :circle) (list (uf1) (funcall (lambda () :sq)) ((lambda (a) :tri) 1) (uf1))",
 	"(defun uf1 (a) (vtr 1 a) :sq) (defun uf2 () \"s\") (list (uf1 1) (uf2) (funcall (lambda () #\\a)) (funcall (lambda () 3/4)) (funcall (lambda () nil)) (funcall (lambda () t)) (uf1 2))",
